@@ -27,11 +27,14 @@ G1 == [i \in 1..32 |-> IF i % 2 = 0 THEN 97 ELSE 48 + (i % 10)]
 None == <<>>
 OptF(f, vals) == {None} \cup {f :> v : v \in vals}
 
+(* argument lists long enough for two- and three-digit keys (argv10 sorts before argv2 as a string); every argument differs *)
+Many(k) == [n \in 1..k |-> IF n <= 26 THEN <<96 + n>> ELSE <<97 + (n % 26), 48 + (n % 10), 65 + (n \div 26)>>]
 Unix == {[transport |-> "unix", kind |-> k, value |-> v] @@ g :
            k \in {"path", "abstract", "dir", "tmpdir"}, v \in Vals, g \in OptF("guid", {G1})}
 Exec == {[transport |-> "unixexec", path |-> p, args |-> a] @@ z :
            p \in (IF FULL THEN Vals ELSE Few \cup {<<47,116,109,112,47,120>>}),
-           a \in {<<>>} \cup {<<v>> : v \in Vals} \cup {<<v, <<97>>>> : v \in Few} \cup {<< <<97>>, v, <<97,44,98>> >> : v \in Few},
+           a \in {<<>>} \cup {<<v>> : v \in Vals} \cup {<<v, <<97>>>> : v \in Few} \cup {<< <<97>>, v, <<97,44,98>> >> : v \in Few}
+                 \cup {Many(k) : k \in (IF FULL THEN {9, 10, 11, 12, 21, 101} ELSE {10, 12})},
            z \in OptF("argv0", IF FULL THEN Vals ELSE Few)}
 Tcp == {[transport |-> "tcp", host |-> h, port |-> p] @@ f @@ n @@ b @@ g :
            h \in Hosts, p \in (IF FULL THEN {0, 80, 65535} ELSE {0, 65535}),
